@@ -3088,6 +3088,7 @@ class SEVM:
 
         step_id = 0
         step_interval_mask = PULSE_INTERVAL - 1
+        depth_warned = False
 
         # make sure the initial instruction has been fetched
         if not ex0.insn:
@@ -3143,10 +3144,13 @@ class SEVM:
                     profiler.increment(opcode, extra)
 
                 if max_depth and step_id > max_depth:
-                    warn(
-                        f"{self.fun_info.sig}: incomplete execution due to the specified limit: --depth {max_depth}",
-                        allow_duplicate=False,
-                    )
+                    # warn once per run, not once per process: the same function signature may be
+                    # cut again in another contract or in a later transaction
+                    if not depth_warned:
+                        warn(
+                            f"{self.fun_info.sig}: incomplete execution due to the specified limit: --depth {max_depth}"
+                        )
+                        depth_warned = True
                     continue
 
                 if print_steps:
